@@ -48,7 +48,7 @@ def lean_type(t) -> str:
     if isinstance(t, tuple) and t[0] == "T":
         return "(" + " × ".join(lean_type(x) for x in t[1:]) + ")"
     if isinstance(t, tuple) and t[0] == "R":
-        return f"{t[1]} X C α" if t[1] in ("Bij", "Chain", "Invert") else f"{t[1]} α"
+        return f"{t[1]} X C α" if t[1] in ("Bij", "Chain", "Invert") else (f"{t[1]} C α" if t[1] in ("AdditiveCondition",) else f"{t[1]} α")
     if isinstance(t, tuple) and t[0] == "F":
         return "(" + " → ".join(lean_type(x) for x in t[1:]) + ")"
     if isinstance(t, tuple) and t[0] == "L":  # list of something
@@ -132,6 +132,13 @@ def _clip(tr, a, kw):
     return f"(Jnp.clip {x} {lo} {hi})", S
 
 
+def _flip(tr, a, kw):
+    (x, t), = a
+    if t == V:
+        return f"(List.reverse {x})", V
+    raise Untranslatable("flip of " + str(t))
+
+
 def _len(tr, a, kw):
     (x, t), = a
     if t == V or (isinstance(t, tuple) and t[0] == "L"):
@@ -182,6 +189,7 @@ LIB = {
     "jnp.searchsorted": _searchsorted,
     "jnp.clip": _clip,
     "len": _len,
+    "jnp.flip": _flip,
     "jnp.abs": _unary_S("Jnp.abs"),
     "jnp.sign": _unary_S("Jnp.sign"),
     "jnp.tanh": _unary_S("Transc.tanh"),
